@@ -197,19 +197,24 @@ def applyOp (cfg : Cfg) (op : Op) (t : Table) : Table :=
 def applyStack (cfg : Cfg) (ops : List Op) (t : Table) : Table :=
   ops.foldl (fun t op => applyOp cfg op t) t
 
+/-- the code of a pair-typed edge id `(a, b)` in the tables (`pcode` in harness/src/c06.rs): the square-shell pairing
+function (Mathlib's `Nat.pair`), injective on ALL pairs of naturals (`Visit.pcode_inj`, Proofs/C06W2Base.lean) — so no
+bound on node ids is needed for an id code to name one edge -/
+def pcode (a b : Nat) : Nat := if a < b then b * b + a else a * a + a + b
+
 /-! ### repairs of the two recorded base-type defects (what the table would be without them) -/
 
 /-- D6: `MatrixGraph<Directed>::edges_directed(b, Incoming)` yields `(b, a)` for an edge `a → b`
 (pair edge ids: the id is the endpoint pair, so it is swapped with them) -/
 def repairD6 (t : Table) : Table :=
   { t with edgesIn := t.edgesIn.map (mapRows fun _ l =>
-      l.map fun e => { e with id := e.tgt * 100 + e.src, src := e.tgt, tgt := e.src }) }
+      l.map fun e => { e with id := pcode e.tgt e.src, src := e.tgt, tgt := e.src }) }
 
 /-- D7: `Csr<Undirected>` stores each non-loop edge in both rows; `edge_references` walks all rows.
 Repaired view: one reference per edge, and the edge identified by its endpoint pair (a `Csr` has no
 parallel edges) instead of by the two positions in the column array. -/
 def repairD7 (t : Table) : Table :=
-  let fix (e : ERef) : ERef := { e with id := (min e.src e.tgt) * 100 + max e.src e.tgt }
+  let fix (e : ERef) : ERef := { e with id := pcode (min e.src e.tgt) (max e.src e.tgt) }
   { t with
     erefs := t.erefs.map fun l => (l.filter fun e => decide (e.src ≤ e.tgt)).map fix
     edges := t.edges.map (mapRows fun _ l => l.map fix) }
